@@ -184,3 +184,20 @@ class Init:
     """Constructing a path from any text (or None) never raises: parsing is lazy."""
     params = {"yaml_path": "Union[YAMLPath, str, None]", "pathsep": "PathSeparators"}
     raises = []
+
+
+@contract(YP + "pop", props=["C14", "C08", "C15"])
+class Pop:
+    """Removing the last segment is total up to YAMLPathException (an empty path, or a text that does not parse)."""
+    assume_fields = FIELDS
+    raises = ["YAMLPathException"]
+    inline = [YP + "escaped", YP + "unescaped"]
+
+
+@contract(YP + "append", props=["C14", "C08", "C15"])
+class Append:
+    """Appending a (pre-escaped) segment text only edits the stored text: never raises for a str segment."""
+    params = {"segment": "str"}
+    assume_fields = FIELDS
+    raises = []
+    opts = {"returns": "YAMLPath"}
